@@ -143,7 +143,12 @@ def _one_mutant(args):
     copy = _scratch_copy()
     out_dir = os.path.join(copy, "_out")
     try:
-        apply_mutant(copy, m)
+        try:
+            apply_mutant(copy, m)
+        except core.HarnessError as e:
+            return {"name": m["name"], "property": m["property"], "source": m["source"], "exit": 2, "caught": False,
+                    "expect": m.get("expect", "caught"), "summary": f"DOES NOT APPLY: {e}"[:300], "wall_s": 0.0,
+                    "note": m.get("note", "")}
         t0 = time.time()
         rc, log = _run_check_on(copy, m["property"], out_dir, seed)
         vio = [ln for ln in log.splitlines() if ln.startswith("VIOLATION ")]
